@@ -12,6 +12,9 @@ import (
 // modelled lists the dialects whose FormatType/ParseType/registry have a Coq model.
 var modelled = map[string]bool{"sqlite": true, "mysql": true}
 
+// PostgreSQL: FormatType and ParseType have a Coq model (Hcl/TypesPg.v); the registry path has not.
+var modelledFmtOnly = map[string]bool{"postgres": true}
+
 func runFmt(w *out.W, tier, dial string) {
 	w.Rule = "a case is non-trivial when the type carries a non-zero parameter, an upper-case / unknown / parameterised name, or reaches an error or panic outcome"
 	w.Exhaust = true
@@ -23,14 +26,10 @@ func runFmt(w *out.W, tier, dial string) {
 			r := o.observe(g.t)
 			if modelled[o.name] {
 				w.Case(id, o.name+" "+showType(g.t), r.lines())
-			} else {
-				// PostgreSQL: only FormatType has a Coq model (Hcl/TypesPg.v); ParseType and the
-				// registry path are covered by the property oracle below.
-				f := "fmt=" + r.fmtSt
-				if r.fmtSt == "ok" {
-					f += ":" + hx(r.fmtS)
-				}
-				w.Case(id, o.name+" "+showType(g.t), []string{f})
+			} else if modelledFmtOnly[o.name] {
+				// PostgreSQL: FormatType, ParseType of the result, FormatType again are compared with the
+				// model; the registry path (second line) is covered by the property oracle below.
+				w.Case(id, o.name+" "+showType(g.t), r.lines()[:1])
 			}
 			w.Count(o.name + "/" + g.origin)
 			w.Count("fmt/" + r.fmtSt)
@@ -41,6 +40,9 @@ func runFmt(w *out.W, tier, dial string) {
 			}
 			oracleType(w, o, id, g, r)
 		}
+	}
+	if dial == "all" || dial == "postgres" {
+		runRawPg(w, tier)
 	}
 }
 
